@@ -78,9 +78,9 @@ pub fn generate(case_seed: u64, idx: u64, tier: Tier) -> Case {
     }
 }
 
-const READER: &str = "kip:principal:reader";
+pub(crate) const READER: &str = "kip:principal:reader";
 const DELEGATE: &str = "kip:principal:delegate";
-const WRITER: &str = "kip:principal:writer";
+pub(crate) const WRITER: &str = "kip:principal:writer";
 
 fn boot(seed: u64, clock: ClockMode) -> Result<(Sim, SimStore, CognitiveNexus), Violation> {
     let mut cfg = SimConfig::simple(seed);
@@ -95,7 +95,7 @@ fn boot(seed: u64, clock: ClockMode) -> Result<(Sim, SimStore, CognitiveNexus), 
     Ok((sim, store, nexus))
 }
 
-fn agent(nexus: &CognitiveNexus, id: &str) -> Result<(), Violation> {
+pub(crate) fn agent(nexus: &CognitiveNexus, id: &str) -> Result<(), Violation> {
     block(nexus.governance().ensure_principal(PrincipalDraft {
         principal_id: id.to_string(),
         principal_class: principal_class::AGENT.to_string(),
@@ -107,7 +107,7 @@ fn agent(nexus: &CognitiveNexus, id: &str) -> Result<(), Violation> {
     .map_err(|e| violation!("c19.setup", "ensure_principal({id}) failed: {e:?}"))
 }
 
-fn read_grant(nexus: &CognitiveNexus, who: &str, ceiling: &str, until: &str, delegable: bool) -> Result<u64, Violation> {
+pub(crate) fn read_grant(nexus: &CognitiveNexus, who: &str, ceiling: &str, until: &str, delegable: bool) -> Result<u64, Violation> {
     block(nexus.governance().create_grant(
         GrantDraft {
             space_id: DEFAULT_SPACE.into(),
@@ -122,6 +122,15 @@ fn read_grant(nexus: &CognitiveNexus, who: &str, ceiling: &str, until: &str, del
     ))
     .map(|g| g._id)
     .map_err(|e| violation!("c19.setup", "create_grant for {who} failed: {e:?}"))
+}
+
+pub(crate) fn writer_grant(nexus: &CognitiveNexus, actions: &[&str]) -> Result<(), Violation> {
+    block(nexus.governance().create_grant(
+        GrantDraft { space_id: DEFAULT_SPACE.into(), grantee_principal: WRITER.into(), actions: actions.iter().map(|s| s.to_string()).collect(), ..Default::default() },
+        SYSTEM_PRINCIPAL,
+    ))
+    .map(|_| ())
+    .map_err(|e| violation!("c19.setup", "writer grant failed: {e:?}"))
 }
 
 /// Replaces element ids by their order of first appearance and drops fields
@@ -508,16 +517,7 @@ fn run_control_plane_only(case: &Case, rep: &mut RunReport) -> Result<(), Violat
     agent(&nexus, WRITER)?;
     agent(&nexus, READER)?;
     read_grant(&nexus, READER, "", "", false)?;
-    block(nexus.governance().create_grant(
-        GrantDraft {
-            space_id: DEFAULT_SPACE.into(),
-            grantee_principal: WRITER.into(),
-            actions: ["read", "search", "discover", "project", "read_history", "create", "update", "assert", "record_attributed_assertion", "assert_as_actor", "retract_own", "supersede_own", "archive", "tombstone", "merge_identity", "moderate_assertion"].iter().map(|s| s.to_string()).collect(),
-            ..Default::default()
-        },
-        SYSTEM_PRINCIPAL,
-    ))
-    .map_err(|e| violation!("c19.setup", "writer grant failed: {e:?}"))?;
+    writer_grant(&nexus, &["read", "search", "discover", "project", "read_history", "create", "update", "assert", "record_attributed_assertion", "assert_as_actor", "retract_own", "supersede_own", "archive", "tombstone", "merge_identity", "moderate_assertion"])?;
     let sessions = [nexus.system_session(), nexus.session(AuthContext::principal(WRITER)), nexus.session(AuthContext::principal(READER))];
     let mut reg = Registry::default();
     let mut grng = Rng::stream(case.gen_seed, "stmts");
